@@ -23,6 +23,9 @@ CHECKS = {
  "C07": (MC, "TLC: GenCond generator + CppRef reference semantics, replay into the real preprocessor (hook H2); CppImpl==CppRef invariant; CppTrace trace validation", "6.C07",
          "GenCond.tla enumerates every well-nested directive sequence up to the bound (exhaustive over the minimal condition alphabet, simulated over the rich one) together with the outcome the reference semantics CppRef prescribes (kept lines, final macro table, #error); each is run through the real preprocessor and compared. TLC also checks, on every sequence, that the implementation-shaped three-state machine CppImpl equals CppRef, and validates recorded H2 event traces against CppImpl.",
          "Trusted: TLC, CppRef (first-true-branch rule), renderer of directive lines. Condition operators limited to those the property names."),
+ "C09": (MC, "TLC: GenLit generator + Lexer.tla decoding oracle; replay of literals in nine contexts into the real compiler", "6.C09",
+         "GenLit.tla enumerates literal bodies (all bodies of <=2 symbols quick, <=3 thorough) over Lexer.tla's alphabet - every escape of the property, escaped quotes/backslashes, comment markers, #, @, macro names - in nine contexts (initialiser, pointer table, adjacent concatenation, call argument, asm, two per line, after code/before comment, inside #if, character constant); the stored bytes must equal Lexer!LiteralBytes.",
+         "Trusted: Lexer.tla symbol table (self-tested), renderer. Literals the compiler refuses are not judged."),
  "C13": (MC, "TLC: Asm.tla legality/label acceptance over every emitted function", "6.C13",
          "Every emitted function of the corpus (as C04, plus label-stress programs: repeated/nested inlining, goto labels, loops and early returns in inlined code, long-branch repair) must use only (mnemonic, mode) pairs of the 6502, define each label once and define every reference.",
          "Trusted: Enc6502 table, harness operand splitter. Inline-function bodies are templates and are judged only where expanded."),
